@@ -3,6 +3,7 @@ package main
 import (
 	"fmt"
 	"go/ast"
+	"go/constant"
 	"go/printer"
 	"go/token"
 	"go/types"
@@ -228,6 +229,12 @@ func (g *Global) fnKey(fn *ssa.Function) string {
 
 func (g *Global) unitFor(fn *ssa.Function) *Unit {
 	if fn.Pkg == nil {
+		// instantiation of a generic function: the (trusted) contract of its origin applies
+		if o := fn.Origin(); o != nil && o.Pkg != nil {
+			if u := g.C.Units[g.fnKey(o)]; u != nil && u.Trusted {
+				return u
+			}
+		}
 		return nil
 	}
 	return g.C.Units[g.fnKey(fn)]
@@ -632,7 +639,7 @@ func (g *Global) regKey(name, sort, kind string) {
 func (g *Global) directWrites(fn *ssa.Function) *writeSet {
 	ws := &writeSet{keys: map[string]bool{}}
 	g.curInRepo = fn.Pkg != nil && g.inRepo(fn.Pkg.Pkg)
-	for _, b := range fn.Blocks {
+	for _, b := range liveBlocks(fn) {
 		for _, in := range b.Instrs {
 			g.instrDirect(in, ws)
 		}
@@ -983,7 +990,7 @@ func (g *Global) fnWrites(fn *ssa.Function, root *types.Package) (map[string]boo
 			continue
 		}
 		// closures passed to pure library functions may be run by them
-		for _, b := range f.Blocks {
+		for _, b := range liveBlocks(f) {
 			for _, in := range b.Instrs {
 				if ci, ok := in.(ssa.CallInstruction); ok {
 					if callee := ci.Common().StaticCallee(); callee != nil && g.isPureLib(callee) {
@@ -1022,7 +1029,7 @@ func (g *Global) mayCallBack(f *ssa.Function) bool { return true }
 // argument-type specialisation for library calls and the VTA call graph otherwise.
 func (g *Global) targetsLocked(cg *callgraph.Graph, f *ssa.Function, res *writeSet) []*ssa.Function {
 	var out []*ssa.Function
-	for _, b := range f.Blocks {
+	for _, b := range liveBlocks(f) {
 		for _, in := range b.Instrs {
 			ci, ok := in.(ssa.CallInstruction)
 			if !ok {
@@ -1039,7 +1046,7 @@ func (g *Global) targetsLocked(cg *callgraph.Graph, f *ssa.Function, res *writeS
 		}
 	}
 	refined := map[ssa.CallInstruction]bool{}
-	for _, b := range f.Blocks {
+	for _, b := range liveBlocks(f) {
 		for _, in := range b.Instrs {
 			if ci, ok := in.(ssa.CallInstruction); ok {
 				if key := funcFieldKey(ci.Common().Value); key != "" && !ci.Common().IsInvoke() {
@@ -1071,12 +1078,19 @@ func (g *Global) targetsLocked(cg *callgraph.Graph, f *ssa.Function, res *writeS
 		}
 	}
 	if n := cg.Nodes[f]; n != nil {
+		live := map[*ssa.BasicBlock]bool{}
+		for _, b := range liveBlocks(f) {
+			live[b] = true
+		}
 		for _, e := range n.Out {
 			if e.Callee == nil || e.Callee.Func == nil {
 				continue
 			}
 			if e.Site != nil && refined[e.Site] {
 				continue
+			}
+			if e.Site != nil && e.Site.Block() != nil && !live[e.Site.Block()] {
+				continue // call under a branch that is constant-false in this build
 			}
 			out = append(out, e.Callee.Func)
 		}
@@ -1455,6 +1469,11 @@ func (g *Global) libCallbackTargets(f *ssa.Function) []*ssa.Function {
 
 func (g *Global) unitForLocked(fn *ssa.Function) *Unit {
 	if fn.Pkg == nil {
+		if o := fn.Origin(); o != nil && o.Pkg != nil {
+			if u := g.C.Units[g.fnKey(o)]; u != nil && u.Trusted {
+				return u
+			}
+		}
 		return nil
 	}
 	return g.C.Units[g.fnKey(fn)]
@@ -1906,4 +1925,51 @@ func (g *Global) noteUse(vc *FnVC, u *Unit, calleeKey string) {
 		tag = "TRUSTED contract "
 	}
 	g.used[k][tag+calleeKey] = true
+}
+
+var liveCache sync.Map // *ssa.Function -> []*ssa.BasicBlock
+
+// liveBlocks returns the blocks of fn reachable from its entry when branches on constant conditions
+// (`if multiphaseEvaluation {` with the constant false in this build) are followed only on the taken side.
+func liveBlocks(fn *ssa.Function) []*ssa.BasicBlock {
+	if v, ok := liveCache.Load(fn); ok {
+		return v.([]*ssa.BasicBlock)
+	}
+	var out []*ssa.BasicBlock
+	if len(fn.Blocks) > 0 {
+		seen := map[*ssa.BasicBlock]bool{}
+		var dfs func(b *ssa.BasicBlock)
+		dfs = func(b *ssa.BasicBlock) {
+			if seen[b] {
+				return
+			}
+			seen[b] = true
+			if len(b.Instrs) > 0 {
+				if ifi, ok := b.Instrs[len(b.Instrs)-1].(*ssa.If); ok {
+					if c, ok := ifi.Cond.(*ssa.Const); ok && c.Value != nil && c.Value.Kind() == constant.Bool {
+						if constant.BoolVal(c.Value) {
+							dfs(b.Succs[0])
+						} else {
+							dfs(b.Succs[1])
+						}
+						return
+					}
+				}
+			}
+			for _, s := range b.Succs {
+				dfs(s)
+			}
+		}
+		dfs(fn.Blocks[0])
+		if fn.Recover != nil {
+			dfs(fn.Recover)
+		}
+		for _, b := range fn.Blocks {
+			if seen[b] {
+				out = append(out, b)
+			}
+		}
+	}
+	liveCache.Store(fn, out)
+	return out
 }
